@@ -175,7 +175,7 @@ def run(chk, w):
     chk.floor("destination_selecting_branches", ncb, 4)
 
     # ---- FIFO / BOUND / READ on the uplink queues
-    uq = sorted(set(g for gs in D.namers.values() for g in gs))
+    uq = sorted(dispatch.queue_roles(P).keys())      # the queue objects themselves (the summaries above use their role names)
     chk.floor("uplink_queues", len(uq), 3)
     chk.rule("C06-FIFO", "the uplink queues are only used through new/push_tail/pop_head/get_length/is_empty/free")
     qcalls = []
